@@ -33,7 +33,7 @@ int cgreen_pipe_open(int pipes[2])
     pipe_nonblock_result = fcntl(pipes[1], F_SETFL, O_NONBLOCK);
 
     if (pipe_nonblock_result != 0) {
-        return pipe_open_result;
+        return pipe_nonblock_result;
     }
 
     return 0;
